@@ -114,7 +114,11 @@ impl InkList {
             let mut names = Vec::new();
 
             for k in self.items.keys() {
-                names.push(k.get_origin_name().unwrap().clone());
+                // an item without an origin (a malformed story document) has no
+                // definition to contribute
+                if let Some(name) = k.get_origin_name() {
+                    names.push(name.clone());
+                }
             }
 
             return names;
